@@ -270,3 +270,41 @@ example : (run rigHandler {} [.command .cmd (.ok 3), .writeDone .sup, .read .sup
     = [.event 31] := by decide
 
 end SwimVerif.CL
+
+/-! ## Commands end to end: remote → read task → lane channel → agent task → `on_command` -/
+namespace SwimVerif.CmdPath
+open SwimVerif.RF SwimVerif.CL
+
+/-- the command bodies among the requests a lane received, with the (ghost) remote they came from -/
+def cmdsOf : List Req → List (Nat × Nat)
+  | [] => []
+  | .command r b :: rest => (r, b) :: cmdsOf rest
+  | .sync _ :: rest => cmdsOf rest
+
+/-- **Every command envelope that reaches a command lane invokes the handler exactly once, with its value, in the
+order each remote sent them.** Take any run of the read task (any remotes, lanes, interleaving) and any run of the agent
+task whose command lane is fed exactly what the agent read from lane `l`'s channel (`dec` = the lane's decoder). Then
+the handler invocations are, in order, the validly decoded bodies the agent read (each followed by the command its
+handler sends itself, if any); and for every remote, what the agent read from it is a prefix of what it sent for the
+lane — the rest is still on its way (`C14_read_feed_all_forwarded_when_idle`: it arrives). -/
+theorem C14_command_lane_end_to_end (c : RF.Cfg) (ops : List RF.Op) (l : Nat) (hl : c.known.contains l = true)
+    (h : Handler) (dec : Nat → Body) (evs : List Ev)
+    (hfeed : cmdBodies evs = (cmdsOf (deliveredTo l (RF.run c {} ops).delivered)).map (fun p => dec p.2)) :
+    invoked (CL.run h {} evs).trace =
+        (validCmds ((cmdsOf (deliveredTo l (RF.run c {} ops).delivered)).map (fun p => dec p.2))).flatMap h.expand
+      ∧ ∀ r, fromRemote r (deliveredTo l (RF.run c {} ops).delivered)
+              <+: reqsOfInbox r l (msgsOf r (RF.run c {} ops).sent) := by
+  refine ⟨by rw [C14_command_handler_exactly_once_in_order, hfeed], fun r => ?_⟩
+  have hx := C14_read_feed_exactly_once_per_remote_in_order c ops r l hl
+  simp only [St.laneStream, fromRemote_append, List.append_assoc] at hx
+  exact ⟨_, hx⟩
+
+/-! Non-vacuity: remote 1 sends 3 then a body that does not decode then 5; remote 2 sends 4 in between. -/
+example :
+    let s := RF.run { known := [0] } {} [.send 1 0 (.command 3), .send 2 0 (.command 4), .send 1 0 (.command 0),
+      .send 1 0 (.command 5), .pick 1, .pick 2, .pick 1, .pick 1, .idle, .take 0, .take 0, .take 0, .take 0]
+    cmdsOf (deliveredTo 0 s.delivered) = [(1, 3), (2, 4), (1, 0), (1, 5)] := by decide
+example : invoked (CL.run rigHandler {} [.command .cmd (.ok 3), .command .cmd (.ok 4), .command .cmd .bad,
+    .command .cmd (.ok 5)]).trace = [3, 4, 5, 6] := by decide
+
+end SwimVerif.CmdPath
